@@ -161,6 +161,13 @@ def _outcomes(ps, ev, env):
         if feasible(p, ev, env):
             if p.term == "return":
                 r = [e.node for e in p.events if e.kind == "return"][-1]
+                if r.value is not None and not isinstance(r.value, ast.Constant):
+                    # a computed result (return not (a or b)): evaluated with the locals of the path followed
+                    from .common import path_return_value
+                    kind, val = path_return_value(p, ev, env)
+                    if kind == "value" and isinstance(val, bool):
+                        outs.add(str(val))
+                        continue
                 outs.add(norm(r.value))
             else:
                 outs.add(p.term)
